@@ -38,6 +38,9 @@ func (j job) run(st *stats) (*conn, witness) {
 	case "cell":
 		w.State, w.Variant, w.Others = j.state, variants[j.vr].name, j.others
 		c = runCell(j.limit, j.state, variants[j.vr], j.others, st)
+	case "first":
+		w.State, w.Variant = "first-frame-after-preface", variants[j.vr].name
+		c = runFirst(j.limit, variants[j.vr], st)
 	case "random":
 		w.Seed = j.seed
 		c = runSequence(j.limit, false, j.seed, st)
@@ -106,11 +109,12 @@ func merge(dst, src *stats) {
 	dst.srvReturned += src.srvReturned
 	dst.srvLingering += src.srvLingering
 	dst.silentDead += src.silentDead
+	dst.fenceBeforeSettings += src.fenceBeforeSettings
 }
 
 func main() {
 	run := verdict.Start("C13", "exploration",
-		"(a) complete product {idle, open, half-closed-remote, closed-by-END_STREAM, closed-by-client-RST, closed-by-server-RST, reset-in-flight} x every frame variant (each type valid + each listed defect) x load {0, limit-1, limit other streams}; (b) random sequences of <= 40 steps over the same alphabet biased towards legality; (c) legal-only sequences. Distinct by (kind, limit, state, variant, load) or (kind, seed); non-trivial when at least one frame was judged against the reference after the preface")
+		"(a) complete product {idle, open, half-closed-remote, closed-by-END_STREAM, closed-by-client-RST, closed-by-server-RST, reset-in-flight} x every frame variant (each type valid + each listed defect) x load {0, limit-1, limit other streams}; plus every variant as the first frame after the preface; (b) random sequences of <= 40 steps over the same alphabet biased towards legality; (c) legal-only sequences. Distinct by (kind, limit, state, variant, load) or (kind, seed); non-trivial when at least one frame was judged against the reference after the preface")
 	if run.ReplayFile != "" {
 		var w witness
 		if err := verdict.LoadReplay(run.ReplayFile, &w); err != nil {
@@ -152,6 +156,9 @@ func main() {
 				cells++
 			}
 		}
+	}
+	for vi := range variants {
+		jobs = append(jobs, job{kind: "first", limit: limits[vi%3], vr: vi})
 	}
 	seeds := run.Rand(13)
 	for i, n := 0, run.Pick(3000, 100000); i < n; i++ {
@@ -219,7 +226,7 @@ func main() {
 				}
 				run.Eval(1)
 				key := fmt.Sprintf("%s|%d|%s|%d|%d|%d", j.kind, j.limit, j.state, j.vr, j.others, j.seed)
-				if len(c.steps) > 2 {
+				if len(c.steps) >= 1 {
 					run.Distinct(key)
 				}
 				mu.Lock()
@@ -289,6 +296,7 @@ func main() {
 	run.Add("serveconn_returned_after_close", total.srvReturned)
 	run.Add("serveconn_left_to_its_goaway_timer", total.srvLingering)
 	run.Add("connection_errors_after_graceful_goaway_signalled_by_silence", total.silentDead)
+	run.Add("fence_ping_was_first_frame_the_server_accepted", total.fenceBeforeSettings)
 	run.Add("cells_total", int64(len(states)*len(variants)))
 	run.Add("cells_covered", int64(len(cellSeen)))
 	var missing []string
